@@ -56,6 +56,13 @@ CLAIMED = {
                      "subscribers; publish: one per live connection, none before connect). Partial: equality of what subscribers see and replay's completeness are decided by the reference-machine oracle "
                      "on the implementation (all histories up to length 5-6 exhaustively plus random ones, hot and synchronous cold sources), not by a theorem. Tie: the implementation's source-observer count "
                      "after every action and every subscriber log must equal the automaton's."),
+    "C14": dict(engine="coq-seq", design="DESIGN.md 6 C14",
+                technique="machine-checked proof in Coq (frame theorem over every request kind of the worklist machine: operator state is allocated fresh per subscription and written only through that subscription's own observers) + metamorphic differential testing of the implementation (combined vs solitary scenarios) and correspondence with the model",
+                text="Theorems C14_fresh_node / C14_node_state_private: in the sequential machine every subscription of every operator allocates a fresh node in the operator's initial state and no request other than "
+                     "an event for the node's own upstream observers or its own handler actions changes it - the model has no state shared between subscriptions, so state shared in the crate is a disagreement. "
+                     "Partial: that each subscriber receives what it would have received alone is not proved as a bisimulation; it is decided on the implementation: every generated pipeline (C02-C04 operators, "
+                     "cold per-attempt scripts, hot subjects, retry/retry_when) is subscribed 2-3 times to ONE Observable value - sequentially, nested from inside a callback, interleaved mid-stream, through retry - and "
+                     "each subscriber's log must equal its log in the solitary scenario."),
     "C18": dict(engine="coq-conc", design="DESIGN.md 6 C18",
                 technique="machine-checked proof in Coq (invariant + bounded-progress lemma of a poller/source transition system over all interleavings) + correspondence under a deterministic scheduling runtime (result and poll count within the model's exhaustively explored outcome set)",
                 text="Theorems C18_result / C18_no_lost_wakeup / C18_eventually_ready: in the to_vec model (waker lock held across the done test and the store; done set before the waker is read) every interleaving, "
